@@ -1,7 +1,7 @@
 /-
   Driver for the SFTP client bookkeeping model (stateful).  Requests:
     init <maxReq> <nfiles> <wfaults csv|-> <sfaults csv|->     → ok
-    op write <f> <hex> | op sync | op close <f> | op pipe <f> <0|1> | op serve <k>
+    op write <f> <hex> | op sync | op close <f> | op pipe <f> <0|1> | op serve <k> | op deliver <k>
         → <ok|raised:<code>|hang> exp=<n> wire=<n> f<i>=<len reqs>:<saved code|->:<pos>:<closed 0|1> …
     dest                                                        → hex;hex;…
     bad                                                         → badSince, comma separated
@@ -26,6 +26,7 @@ def parseOp : List String → Option Op
     | some i => if b == "1" then some (.setPipelined i true) else if b == "0" then some (.setPipelined i false) else none
     | none => none
   | ["serve", k] => k.toNat?.map .serve
+  | ["deliver", k] => k.toNat?.map .deliver
   | _ => none
 
 def showRes : Res → String
